@@ -12,6 +12,7 @@ CONSTANTS
   MaxInbound = 1
   MaxTime = 660
   Faults = TRUE
+  MaxRestart = 0
   UseFourth = FALSE
   SetIdxs = {0}
   TimeSteps = {1, 3, 7}
